@@ -1181,13 +1181,13 @@ func (f *Frame) binop(op token.Token, X, Y ssa.Value, resT types.Type, st *State
 		if isUnsigned(xt) {
 			return fmt.Sprintf("(div %s %s)", x, y)
 		}
-		return fmt.Sprintf("(go_div %s %s)", x, y)
+		return f.vc.goDiv(x, y)
 	case token.REM:
 		f.mustHold(st, fmt.Sprintf("(not (= %s 0))", y), "div")
 		if isUnsigned(xt) {
 			return fmt.Sprintf("(mod %s %s)", x, y)
 		}
-		return fmt.Sprintf("(go_mod %s %s)", x, y)
+		return f.vc.goMod(x, y)
 	case token.EQL, token.NEQ:
 		var e Term
 		if _, isIface := xt.Underlying().(*types.Interface); isIface {
